@@ -1,5 +1,5 @@
 """Per-property job lists (bounds per tier) and the texts that go into the evidence."""
-from props_front import POOL, c09_shapes, c09_opaque_jobs
+from props_front import POOL, c09_shapes, c09_opaque_jobs, c08_doc_jobs
 import props_pipe
 import props_time
 import props_list
@@ -62,7 +62,7 @@ def jobs_c08(tier, seed):
     for a, b, nmax2 in sym:
         for n in range(1, nmax2 + 1):
             jobs.append(J('c08_recognition', f'U({n}) symbolic delimiters |ds|={a}B |de|={b}B', n=n, ds_len=a, de_len=b))
-    return jobs
+    return jobs + c08_doc_jobs(tier)
 
 
 def jobs_c09(tier, seed):
@@ -86,7 +86,12 @@ def jobs_c09(tier, seed):
 
 def jobs_c10(tier, seed):
     lens = range(1, 6) if tier == 'quick' else range(1, 7)
-    return [J('c10_pairing', f'slot sequences of length {L}', len=L) for L in lens]
+    jobs = [J('c10_pairing', f'slot sequences of length {L}', len=L) for L in lens]
+    # one name two letters long (suffix / prefix relations between names), and long runs of inert tags in front
+    jobs += [J('c10_pairing', f'slot sequences of length {L}, y two letters', len=L, ylen=2) for L in (range(2, 4) if tier == 'quick' else range(2, 6))]
+    for pre, lab in ((['o'] * 17, '17 unclosed openers'), (['c'] * 17, '17 stray closers'), (['o', 'c'] * 9, '18 mixed inert tags')):
+        jobs.append(J('c10_pairing', f'{lab} in front of slot sequences of length 3', len=3, prefix=pre))
+    return jobs
 
 
 def jobs_c01_front(tier, seed):
